@@ -79,10 +79,13 @@ pub fn build(forge: &mut Forge, cons: &Consensus) -> Result<Universe, String> {
     // (a lock whose args extend "ab" by a zero byte: its index keys sort between the block-0 keys and
     // the later keys of "ab")
     let x3 = tx_with(cons, &[out(&x1, 1), g[1].clone()], &[(b"abc", Some(b"ab"), b"", 0), (b"ab", Some(b"abc"), b"dd", 700), (b"ab\x00", Some(b"ab\x00\x01"), b"z", 650)], 3);
-    let x4 = tx_with(cons, &[out(&x2, 1)], &[(b"abd", None, b"tail", 0)], 4);
+    // (a TYPE script byte-identical to the LOCK of the genesis cells - empty args: the SQL indexer
+    // keeps one script row for both roles, and a rollback of this block must not take the row
+    // away from the cells that still use it as their lock)
+    let x4 = tx_with(cons, &[out(&x2, 1)], &[(b"abd", None, b"tail", 0), (b"ab", Some(b""), b"t1", 200)], 4);
     // branch B
     let y1 = tx_with(cons, &g[0..1], &[(b"abd", Some(b"ab"), b"d9", 0), (b"ab", None, b"", 4_000)], 11);
-    let y2 = tx_with(cons, &g[2..3], &[(b"abc", None, b"dz", 0), (b"abc", Some(b"abc"), b"q", 900), (b"ab\x00", None, b"", 640)], 12);
+    let y2 = tx_with(cons, &g[2..3], &[(b"abc", None, b"dz", 0), (b"abc", Some(b"abc"), b"q", 900), (b"ab\x00", None, b"", 640), (b"abc", Some(b""), b"t0", 610)], 12);
     let y3 = tx_with(cons, &[out(&y1, 1), out(&y2, 0)], &[(b"", None, b"merged", 0)], 13);
     let ids = |txs: &[&TransactionView]| txs.iter().map(|t| t.proposal_short_id()).collect::<Vec<_>>();
     let genesis = cons.genesis_hash();
@@ -296,6 +299,44 @@ struct Rig {
     cons: Consensus,
     node: Node,
     svc: IndexerService,
+    /// the SQL (sqlite) rich indexer on a secondary handle of its own
+    rich: ckb_rich_indexer::RichIndexerService,
+}
+
+/// the two indexers behind one set of calls
+enum Asker {
+    Rocks(ckb_indexer::IndexerHandle),
+    Rich(ckb_rich_indexer::AsyncRichIndexerHandle),
+}
+
+impl Asker {
+    fn is_rich(&self) -> bool {
+        matches!(self, Asker::Rich(_))
+    }
+    fn tip(&self) -> Result<Option<ckb_jsonrpc_types::IndexerTip>, String> {
+        match self {
+            Asker::Rocks(h) => h.get_indexer_tip().map_err(|e| format!("{e:?}")),
+            Asker::Rich(h) => runtime().block_on(h.get_indexer_tip()).map_err(|e| format!("{e:?}")),
+        }
+    }
+    fn cells(&self, key: IndexerSearchKey, order: IndexerOrder, limit: ckb_jsonrpc_types::Uint32, after: Option<JsonBytes>) -> Result<ckb_jsonrpc_types::IndexerPagination<ckb_jsonrpc_types::IndexerCell>, String> {
+        match self {
+            Asker::Rocks(h) => h.get_cells(key, order, limit, after).map_err(|e| format!("{e:?}")),
+            Asker::Rich(h) => runtime().block_on(h.get_cells(key, order, limit, after)).map_err(|e| format!("{e:?}")),
+        }
+    }
+    fn capacity(&self, key: IndexerSearchKey) -> Result<Option<ckb_jsonrpc_types::IndexerCellsCapacity>, String> {
+        match self {
+            Asker::Rocks(h) => h.get_cells_capacity(key).map_err(|e| format!("{e:?}")),
+            Asker::Rich(h) => runtime().block_on(h.get_cells_capacity(key)).map_err(|e| format!("{e:?}")),
+        }
+    }
+    fn txs(&self, key: IndexerSearchKey, order: IndexerOrder, limit: ckb_jsonrpc_types::Uint32, after: Option<JsonBytes>) -> Result<ckb_jsonrpc_types::IndexerPagination<ckb_jsonrpc_types::IndexerTx>, String> {
+        match self {
+            Asker::Rocks(h) => h.get_transactions(key, order, limit, after).map_err(|e| format!("{e:?}")),
+            Asker::Rich(h) => runtime().block_on(h.get_transactions(key, order, limit, after)).map_err(|e| format!("{e:?}")),
+        }
+    }
 }
 
 fn boot(ctx: &Ctx, tag: &str) -> Result<Rig, String> {
@@ -314,8 +355,16 @@ fn boot(ctx: &Ctx, tag: &str) -> Result<Rig, String> {
     let handle = runtime();
     let secondary = new_secondary_db(&db_config, &(&ic).into());
     let pool_service = PoolService::new(false, handle.clone());
-    let svc = IndexerService::new(secondary, pool_service, &ic, handle);
-    Ok(Rig { cons, node, svc })
+    let svc = IndexerService::new(secondary, pool_service, &ic, handle.clone());
+    let mut rc = IndexerConfig::default();
+    rc.store = dir.join("rich/store");
+    rc.secondary_path = dir.join("rich/secondary");
+    rc.rich_indexer.store = dir.join("rich/sqlite/sqlite.db");
+    std::fs::create_dir_all(&rc.secondary_path).map_err(|e| e.to_string())?;
+    std::fs::create_dir_all(dir.join("rich/sqlite")).map_err(|e| e.to_string())?;
+    let secondary2 = new_secondary_db(&db_config, &(&rc).into());
+    let rich = ckb_rich_indexer::RichIndexerService::new(secondary2, PoolService::new(false, handle.clone()), &rc, handle);
+    Ok(Rig { cons, node, svc, rich })
 }
 
 fn cell_tuple(c: &Cell) -> (String, u32, u64, u32, String, String) {
@@ -324,19 +373,36 @@ fn cell_tuple(c: &Cell) -> (String, u32, u64, u32, String, String) {
 
 /// every query of the grid against the reference
 fn ask_all(rig: &Rig, r: &Reference, queries: &[Query], step: &str, label: &Value, report: &mut Report) {
-    let h = rig.svc.handle();
+    ask_one(&Asker::Rocks(rig.svc.handle()), r, queries, step, label, report);
+}
+
+/// the rich indexer: the same questions; its result order is its own (insertion ids), so lists are
+/// compared as sets (sorted) and page concatenation must still be exhaustive and duplicate-free
+fn ask_rich(rig: &Rig, r: &Reference, queries: &[Query], step: &str, label: &Value, report: &mut Report) {
+    ask_one(&Asker::Rich(rig.rich.async_handle()), r, queries, step, label, report);
+}
+
+fn ask_one(h: &Asker, r: &Reference, queries: &[Query], step: &str, label: &Value, report: &mut Report) {
+    let rich = h.is_rich();
+    let pfx = if rich { "rich/" } else { "" };
     // tip
-    match h.get_indexer_tip() {
+    match h.tip() {
         Ok(Some(t)) => {
             let got: (u64, packed::Byte32) = (t.block_number.into(), t.block_hash.pack());
             if got != r.tip {
-                report.violation("tip-differs", format!("{step}: indexer tip {} / {}, main chain tip {} / {}", got.0, got.1, r.tip.0, r.tip.1), label.clone());
+                report.violation(format!("{pfx}tip-differs"), format!("{step}: indexer tip {} / {}, main chain tip {} / {}", got.0, got.1, r.tip.0, r.tip.1), label.clone());
             }
         }
-        other => report.violation("tip-missing", format!("{step}: get_indexer_tip = {:?}", other.map(|x| x.map(|t| t.block_number))), label.clone()),
+        other => report.violation(format!("{pfx}tip-missing"), format!("{step}: get_indexer_tip = {:?}", other.map(|x| x.map(|t| t.block_number))), label.clone()),
     }
     for q in queries {
-        let qlabel = json!({"history": label, "query": q.label(), "step": step});
+        // the SQL indexer is an order of magnitude slower per query: it gets the part of the grid
+        // that varies what its tables join on (script, role, mode, other-script filter, one block
+        // range), ascending, plus descending for the plain key
+        if rich && (q.capacity_range.is_some() || q.data_len_range.is_some() || q.data_prefix.is_some() || !(q.block_range.is_none() || q.block_range == Some((3, 4))) || (q.desc && (q.filter_script.is_some() || q.block_range.is_some())) || q.filter_script.as_ref().map(|f| f.args().raw_data().is_empty()).unwrap_or(false)) {
+            continue;
+        }
+        let qlabel = json!({"history": label, "query": q.label(), "step": step, "indexer": if rich { "rich (sqlite)" } else { "rocksdb" }});
         // ---- get_cells
         let mut want: Vec<(Vec<u8>, Cell)> = r.live.iter().filter_map(|c| q.cell_matches(c, true).map(|own| {
             let mut k = own;
@@ -350,15 +416,15 @@ fn ask_all(rig: &Rig, r: &Reference, queries: &[Query], step: &str, label: &Valu
             want.reverse();
         }
         let want_cells: Vec<_> = want.iter().map(|(_, c)| cell_tuple(c)).collect();
-        for limit in [1u32, 2, 1000] {
+        for limit in if rich { vec![1u32, 1000] } else { vec![1u32, 2, 1000] } {
             let mut got = vec![];
             let mut cursor: Option<JsonBytes> = None;
             let mut pages = 0;
             loop {
-                let page = match h.get_cells(q.key(false), if q.desc { IndexerOrder::Desc } else { IndexerOrder::Asc }, limit.into(), cursor.clone()) {
+                let page = match h.cells(q.key(false), if q.desc { IndexerOrder::Desc } else { IndexerOrder::Asc }, limit.into(), cursor.clone()) {
                     Ok(p) => p,
                     Err(e) => {
-                        report.violation("get_cells/error", format!("{step}: {e:?}"), qlabel.clone());
+                        report.violation(format!("{pfx}get_cells/error"), format!("{step}: {e:?}"), qlabel.clone());
                         break;
                     }
                 };
@@ -375,24 +441,31 @@ fn ask_all(rig: &Rig, r: &Reference, queries: &[Query], step: &str, label: &Valu
                 cursor = Some(page.last_cursor);
             }
             report.evaluations += 1;
+            let (mut got, mut want_cells) = (got, want_cells.clone());
+            if rich {
+                got.sort();
+                want_cells.sort();
+            }
             if got != want_cells {
-                report.violation(format!("get_cells/{}", if got.len() != want_cells.len() { "different-set" } else { "different-order-or-content" }), format!("{step}: limit {limit}: indexer returned {} cells {:?}, the filter over the main chain's live cells gives {} {:?}", got.len(), got.iter().map(|c| format!("{}#{}", &c.0[..10], c.1)).collect::<Vec<_>>(), want_cells.len(), want_cells.iter().map(|c| format!("{}#{}", &c.0[..10], c.1)).collect::<Vec<_>>()), qlabel.clone());
+                report.violation(format!("{pfx}get_cells/{}", if got.len() != want_cells.len() { "different-set" } else { "different-order-or-content" }), format!("{step}: limit {limit}: indexer returned {} cells {:?}, the filter over the main chain's live cells gives {} {:?}", got.len(), got.iter().map(|c| format!("{}#{}", &c.0[..10], c.1)).collect::<Vec<_>>(), want_cells.len(), want_cells.iter().map(|c| format!("{}#{}", &c.0[..10], c.1)).collect::<Vec<_>>()), qlabel.clone());
             }
             if !want_cells.is_empty() {
                 report.nontrivial.insert(fp(&(format!("{:?}", q.label()), limit)));
             }
         }
         // ---- get_cells_capacity
-        match h.get_cells_capacity(q.key(false)) {
+        match h.capacity(q.key(false)) {
             Ok(Some(c)) => {
                 let want_cap: u64 = want.iter().map(|(_, c)| Unpack::<u64>::unpack(&c.output.capacity())).sum();
                 let got_cap: u64 = c.capacity.value();
                 if got_cap != want_cap {
-                    report.violation("get_cells_capacity/different-sum", format!("{step}: indexer {got_cap}, filter over live cells {want_cap}"), qlabel.clone());
+                    report.violation(format!("{pfx}get_cells_capacity/different-sum"), format!("{step}: indexer {got_cap}, filter over live cells {want_cap}"), qlabel.clone());
                 }
             }
-            Ok(None) => report.violation("get_cells_capacity/none", format!("{step}: None"), qlabel.clone()),
-            Err(e) => report.violation("get_cells_capacity/error", format!("{step}: {e:?}"), qlabel.clone()),
+            // (the rich indexer answers None where there is nothing to sum)
+            Ok(None) if rich && want.is_empty() => {}
+            Ok(None) => report.violation(format!("{pfx}get_cells_capacity/none"), format!("{step}: None"), qlabel.clone()),
+            Err(e) => report.violation(format!("{pfx}get_cells_capacity/error"), format!("{step}: {e:?}"), qlabel.clone()),
         }
         report.evaluations += 1;
         // ---- get_transactions (the cell-content filters are not supported there)
@@ -413,7 +486,8 @@ fn ask_all(rig: &Rig, r: &Reference, queries: &[Query], step: &str, label: &Valu
                 // by type script", without "prefix"), unlike get_cells
                 if let Some(f) = &q.filter_script {
                     let other = if q.is_type { Some(raw(&cell.output.lock())) } else { cell.output.type_().to_opt().map(|t| raw(&t)) };
-                    return matches!(other, Some(o) if o == raw(f));
+                    // (the rich indexer documents a prefix match for this filter in both calls)
+                    return matches!(other, Some(o) if if rich { o.starts_with(&raw(f)) } else { o == raw(f) });
                 }
                 true
             })
@@ -431,15 +505,15 @@ fn ask_all(rig: &Rig, r: &Reference, queries: &[Query], step: &str, label: &Valu
             wanth.reverse();
         }
         let want_txs: Vec<_> = wanth.iter().map(|(_, t)| t.clone()).collect();
-        for limit in [1u32, 3, 1000] {
+        for limit in if rich { vec![1u32, 1000] } else { vec![1u32, 3, 1000] } {
             let mut got = vec![];
             let mut cursor: Option<JsonBytes> = None;
             let mut pages = 0;
             loop {
-                let page = match h.get_transactions(q.key(false), if q.desc { IndexerOrder::Desc } else { IndexerOrder::Asc }, limit.into(), cursor.clone()) {
+                let page = match h.txs(q.key(false), if q.desc { IndexerOrder::Desc } else { IndexerOrder::Asc }, limit.into(), cursor.clone()) {
                     Ok(p) => p,
                     Err(e) => {
-                        report.violation("get_transactions/error", format!("{step}: {e:?}"), qlabel.clone());
+                        report.violation(format!("{pfx}get_transactions/error"), format!("{step}: {e:?}"), qlabel.clone());
                         break;
                     }
                 };
@@ -456,8 +530,13 @@ fn ask_all(rig: &Rig, r: &Reference, queries: &[Query], step: &str, label: &Valu
                 cursor = Some(page.last_cursor);
             }
             report.evaluations += 1;
+            let (mut got, mut want_txs) = (got, want_txs.clone());
+            if rich {
+                got.sort();
+                want_txs.sort();
+            }
             if got != want_txs {
-                report.violation(format!("get_transactions/{}", if got.len() != want_txs.len() { "different-set" } else { "different-order-or-content" }), format!("{step}: limit {limit}: indexer returned {} entries {:?}, the filter over the main chain's history gives {} {:?}", got.len(), got.iter().map(|t| format!("{}@{}:{}:{}{}", &t.0[..10], t.1, t.2, if t.4 == 0 { "in" } else { "out" }, t.3)).collect::<Vec<_>>(), want_txs.len(), want_txs.iter().map(|t| format!("{}@{}:{}:{}{}", &t.0[..10], t.1, t.2, if t.4 == 0 { "in" } else { "out" }, t.3)).collect::<Vec<_>>()), qlabel.clone());
+                report.violation(format!("{pfx}get_transactions/{}", if got.len() != want_txs.len() { "different-set" } else { "different-order-or-content" }), format!("{step}: limit {limit}: indexer returned {} entries {:?}, the filter over the main chain's history gives {} {:?}", got.len(), got.iter().map(|t| format!("{}@{}:{}:{}{}", &t.0[..10], t.1, t.2, if t.4 == 0 { "in" } else { "out" }, t.3)).collect::<Vec<_>>(), want_txs.len(), want_txs.iter().map(|t| format!("{}@{}:{}:{}{}", &t.0[..10], t.1, t.2, if t.4 == 0 { "in" } else { "out" }, t.3)).collect::<Vec<_>>()), qlabel.clone());
             }
         }
         // grouped: the same entries merged per transaction
@@ -465,10 +544,10 @@ fn ask_all(rig: &Rig, r: &Reference, queries: &[Query], step: &str, label: &Valu
         let mut cursor: Option<JsonBytes> = None;
         let mut pages = 0;
         loop {
-            let page = match h.get_transactions(q.key(true), if q.desc { IndexerOrder::Desc } else { IndexerOrder::Asc }, 2u32.into(), cursor.clone()) {
+            let page = match h.txs(q.key(true), if q.desc { IndexerOrder::Desc } else { IndexerOrder::Asc }, 2u32.into(), cursor.clone()) {
                 Ok(p) => p,
                 Err(e) => {
-                    report.violation("get_transactions-grouped/error", format!("{step}: {e:?}"), qlabel.clone());
+                    report.violation(format!("{pfx}get_transactions-grouped/error"), format!("{step}: {e:?}"), qlabel.clone());
                     break;
                 }
             };
@@ -497,8 +576,20 @@ fn ask_all(rig: &Rig, r: &Reference, queries: &[Query], step: &str, label: &Valu
             }
         }
         report.evaluations += 1;
+        if rich {
+            // per transaction, the set of (io type, index) pairs; transactions as a set
+            let norm = |v: Vec<(String, Vec<(u8, u32)>)>| -> Vec<(String, Vec<(u8, u32)>)> {
+                let mut m: BTreeMap<String, Vec<(u8, u32)>> = BTreeMap::new();
+                for (h, c) in v {
+                    m.entry(h).or_default().extend(c);
+                }
+                m.into_iter().map(|(h, mut c)| { c.sort(); (h, c) }).collect()
+            };
+            got_grouped = norm(got_grouped);
+            want_grouped = norm(want_grouped);
+        }
         if got_grouped != want_grouped {
-            report.violation("get_transactions-grouped/differs", format!("{step}: indexer {:?}, reference {:?}", got_grouped.iter().map(|g| (&g.0[..10], &g.1)).collect::<Vec<_>>(), want_grouped.iter().map(|g| (&g.0[..10], &g.1)).collect::<Vec<_>>()), qlabel.clone());
+            report.violation(format!("{pfx}get_transactions-grouped/differs"), format!("{step}: indexer {:?}, reference {:?}", got_grouped.iter().map(|g| (&g.0[..10], &g.1)).collect::<Vec<_>>(), want_grouped.iter().map(|g| (&g.0[..10], &g.1)).collect::<Vec<_>>()), qlabel.clone());
         }
     }
 }
@@ -552,8 +643,10 @@ fn follow_family(ctx: &Ctx, report: &mut Report) -> Result<(), String> {
         let mut trace = vec![];
         // the indexer starts from nothing: first pass indexes genesis
         rig.svc.verif_sync_once();
+        rig.rich.verif_sync_once();
         let r = reference(&rig.node.main_chain());
         ask_all(&rig, &r, &queries, "genesis", &label, report);
+        ask_rich(&rig, &r, &queries, "genesis", &label, report);
         for (name, blk) in order {
             if ctx.out_of_time() {
                 report.cap_hit = Some("follow family: wall budget".into());
@@ -562,11 +655,13 @@ fn follow_family(ctx: &Ctx, report: &mut Report) -> Result<(), String> {
             rig.node.process(blk).map_err(|e| format!("{name}: {e}"))?;
             trace.push(name.clone());
             rig.svc.verif_sync_once();
+            rig.rich.verif_sync_once();
             let main = rig.node.main_chain();
             let r = reference(&main);
             report.transitions += 1;
             let step = format!("after {}", trace.join(" "));
             ask_all(&rig, &r, &queries, &step, &label, report);
+            ask_rich(&rig, &r, &queries, &step, &label, report);
             report.states.insert(fp(&(&lead, &trace)));
             report.outcomes.insert(fp(&(r.live.len(), r.history.len())));
         }
